@@ -33,6 +33,16 @@ def crash_signature(stderr):
     return "crash"
 
 
+def crash_excerpt(stderr, n=3500):
+    """the part of a worker's stderr that starts at the sanitizer's first report line (frames shortened)"""
+    import re
+    i = min([x for x in (stderr.find('ERROR: '), stderr.find('runtime error')) if x >= 0] or [max(0, len(stderr) - n)])
+    i = max(0, stderr.rfind('\n', 0, i))
+    txt = re.sub(r'std::__cxx11::basic_string<char, std::char_traits<char>, std::allocator<char> >', 'std::string', stderr[i:])
+    txt = "\n".join(l[:260] for l in txt.splitlines())
+    return txt[:n]
+
+
 def run_model(ch, events, **kw):
     m = model.Model(ch, max_micro=MODEL_MICRO, **kw)
     t = trace.model_view(m.run(list(events)))
